@@ -20,14 +20,37 @@ type sm9reg struct {
 	cls string
 }
 
+// bytes encodes a COPY of the element: Marshal normalises the point it is called on (MakeAffine), and the
+// representation the library produced has to flow into the later operations unchanged.
 func (r *sm9reg) bytes() []byte {
 	switch r.grp {
 	case "g1":
-		return r.g1.Marshal()
+		return new(vh.G1).Set(r.g1).Marshal()
 	case "g2":
-		return r.g2.Marshal()
+		return new(vh.G2).Set(r.g2).Marshal()
 	}
-	return r.gt.Marshal()
+	return new(vh.GT).Set(r.gt).Marshal()
+}
+
+// decoded returns the same element in the representation the decoder produces (affine coordinates / decoded identity).
+func (r *sm9reg) decoded() *sm9reg {
+	d := &sm9reg{grp: r.grp, cls: r.cls}
+	var err error
+	switch r.grp {
+	case "g1":
+		d.g1 = new(vh.G1)
+		_, err = d.g1.Unmarshal(r.bytes())
+	case "g2":
+		d.g2 = new(vh.G2)
+		_, err = d.g2.Unmarshal(r.bytes())
+	default:
+		d.gt = new(vh.GT)
+		_, err = d.gt.Unmarshal(r.bytes())
+	}
+	if err != nil {
+		return nil // reported by the caller: an element the library encoded must decode
+	}
+	return d
 }
 
 var gtTableOnce sync.Once
@@ -56,7 +79,8 @@ func sm9base(grp string, k []byte) (*sm9reg, error) {
 
 func init() {
 	Register("sm9grp", func(t *Trace, env *Env) *Mismatch {
-		regs := map[int]*sm9reg{}
+		regs := map[int]*sm9reg{}    // the elements as the library computed them
+		regsDec := map[int]*sm9reg{} // the same elements, entered through the decoder (base) or computed from such operands
 		for i, st := range t.Steps {
 			At(i)
 			op := st.Str("op")
@@ -67,48 +91,7 @@ func init() {
 				continue
 			}
 			grp := st.Str("grp")
-			var r *sm9reg
-			var err error
-			switch op {
-			case "base":
-				r, err = sm9base(grp, st.Hex("k"))
-			case "mul":
-				s := regs[st.Int("src")]
-				r = &sm9reg{grp: grp}
-				switch grp {
-				case "g1":
-					r.g1, err = new(vh.G1).ScalarMult(s.g1, st.Hex("k"))
-				case "g2":
-					r.g2, err = new(vh.G2).ScalarMult(s.g2, st.Hex("k"))
-				case "gt":
-					r.gt, err = vh.ScalarMultGT(s.gt, st.Hex("k"))
-				}
-			case "add":
-				a, b := regs[st.Int("a")], regs[st.Int("b")]
-				r = &sm9reg{grp: grp}
-				switch grp {
-				case "g1":
-					r.g1 = new(vh.G1).Add(a.g1, b.g1)
-				case "g2":
-					r.g2 = new(vh.G2).Add(a.g2, b.g2)
-				case "gt":
-					r.gt = new(vh.GT).Add(a.gt, b.gt)
-				}
-			case "neg":
-				s := regs[st.Int("src")]
-				r = &sm9reg{grp: grp}
-				if grp == "g1" {
-					r.g1 = new(vh.G1).Neg(s.g1)
-				} else {
-					r.g2 = new(vh.G2).Neg(s.g2)
-				}
-			case "dbl":
-				r = &sm9reg{grp: grp, g1: new(vh.G1).Double(regs[st.Int("src")].g1)}
-			case "pair":
-				r = &sm9reg{grp: "gt", gt: vh.Pair(regs[st.Int("a")].g1, regs[st.Int("b")].g2)}
-			default:
-				panic("harness: sm9grp: unknown op " + op)
-			}
+			r, err := sm9apply(op, grp, st, regs)
 			if err != nil {
 				return &Mismatch{Step: i, Kind: "errmismatch", Got: "error: " + err.Error(), Exp: "ok"}
 			}
@@ -148,10 +131,79 @@ func init() {
 					return &Mismatch{Step: i, Kind: "mismatch", Got: "equal encodings: " + boolStr(same), Exp: "equal encodings: " + boolStr(o.cls == r.cls), Note: "equality relation between registers"}
 				}
 			}
+			// the same operation on the operands in their other representations - as the decoder produces them, and as
+			// computed from decoded operands - must give the same element: a point is what it encodes to, however it was made
+			dec := r.decoded()
+			if dec == nil {
+				return &Mismatch{Step: i, Kind: "mismatch", Got: "the encoding of a result does not decode", Exp: "decodes", Note: hx(got)}
+			}
+			if mm := Diff(i, dec.bytes(), got); mm != nil {
+				mm.Note = "decode(encode(x)) encodes differently"
+				return mm
+			}
+			viaDec := dec
+			if op != "base" {
+				v, err := sm9apply(op, grp, st, regsDec)
+				if err != nil {
+					return &Mismatch{Step: i, Kind: "errmismatch", Got: "error: " + err.Error(), Exp: "ok", Note: "operands in decoded representation"}
+				}
+				v.cls = r.cls
+				if mm := Diff(i, v.bytes(), got); mm != nil {
+					mm.Note = "the same operation on operands in the decoder's representation (or computed from such) gives a different element"
+					return mm
+				}
+				viaDec = v
+			}
 			regs[st.Int("dst")] = r
+			regsDec[st.Int("dst")] = viaDec
 		}
 		return nil
 	})
+}
+
+// sm9apply performs one operation of the trace on the registers of the given bank.
+func sm9apply(op, grp string, st Step, regs map[int]*sm9reg) (r *sm9reg, err error) {
+	switch op {
+	case "base":
+		r, err = sm9base(grp, st.Hex("k"))
+	case "mul":
+		s := regs[st.Int("src")]
+		r = &sm9reg{grp: grp}
+		switch grp {
+		case "g1":
+			r.g1, err = new(vh.G1).ScalarMult(s.g1, st.Hex("k"))
+		case "g2":
+			r.g2, err = new(vh.G2).ScalarMult(s.g2, st.Hex("k"))
+		case "gt":
+			r.gt, err = vh.ScalarMultGT(s.gt, st.Hex("k"))
+		}
+	case "add":
+		a, b := regs[st.Int("a")], regs[st.Int("b")]
+		r = &sm9reg{grp: grp}
+		switch grp {
+		case "g1":
+			r.g1 = new(vh.G1).Add(a.g1, b.g1)
+		case "g2":
+			r.g2 = new(vh.G2).Add(a.g2, b.g2)
+		case "gt":
+			r.gt = new(vh.GT).Add(a.gt, b.gt)
+		}
+	case "neg":
+		s := regs[st.Int("src")]
+		r = &sm9reg{grp: grp}
+		if grp == "g1" {
+			r.g1 = new(vh.G1).Neg(s.g1)
+		} else {
+			r.g2 = new(vh.G2).Neg(s.g2)
+		}
+	case "dbl":
+		r = &sm9reg{grp: grp, g1: new(vh.G1).Double(regs[st.Int("src")].g1)}
+	case "pair":
+		r = &sm9reg{grp: "gt", gt: vh.Pair(regs[st.Int("a")].g1, regs[st.Int("b")].g2)}
+	default:
+		panic("harness: sm9grp: unknown op " + op)
+	}
+	return r, err
 }
 
 func sm9dec(i int, st Step) *Mismatch {
